@@ -10,7 +10,8 @@ import "github.com/karino2/folang/pkg/dict"
 func c05SymName(tag string, avoid []string) string {
 	n := verifString(tag, 2)
 	for i := 0; i < 2; i++ {
-		verifAssume(n[i] >= 'a' && n[i] <= 'z')
+		verifAssume(n[i] >= 'a')
+		verifAssume(n[i] <= 'z')
 	}
 	for _, a := range avoid {
 		verifAssume(n != a)
